@@ -1,7 +1,7 @@
 (* C17 — alias relation is a signed equivalence under any operation history.
    Property theorems only; proofs live in Proofs/C17_*.v. *)
 From stdpp Require Import gmap.
-From PV Require Import Lib.Closure Model.C17_alias Proofs.C17_alias Proofs.C17_canon.
+From PV Require Import Lib.Closure Model.C17_alias Proofs.C17_alias Proofs.C17_canon Proofs.C17_remove.
 
 (* aliases() returns exactly the signed equivalence class: for every legal history of adds
    (no add relating a variable to its own negation), of any length, over any names *)
@@ -33,3 +33,38 @@ Example C17_legal_example :
   legalR [((false, 1%positive), (true, 2%positive)); ((false, 3%positive), (false, 2%positive))] empty_rel.
 Proof. vm_compute. repeat split; intros H; discriminate H. Qed.
 Print Assumptions C17_legal_example.
+
+(* every relation reachable by ANY legal history of add / remove / copy operations over any
+   number of relations (legal = no Add relates a variable to its own negation) satisfies all
+   invariants: aliases() is a partition closed under negation with no variable aliased to its own
+   negation, and canonical_signed() is class-consistent with consistent signs *)
+Theorem C17_history_invariants (ops : list op) :
+  legal_ops [empty_rel] ops → Forall (fun r => al_ok r ∧ canon_ok r) (run_ops ops).
+Proof. exact (history_invariants ops). Qed.
+Print Assumptions C17_history_invariants.
+
+(* remove(a) of a canonical variable resets exactly its class and the mirror class to
+   singletons (aliases and canonical names), leaves every other answer unchanged, and drops a
+   from the canonical set *)
+Theorem C17_remove (r : rel) (p : positive) (k : svar) : al_ok r ∧ canon_ok r → p ∈ cv r →
+  let R := q_aliases r (false, p) ∪ q_aliases r (true, p) in
+  (k ∈ R → q_aliases (remove r (false, p)) k = {[k]} ∧ q_canon (remove r (false, p)) k = (k.2, k.1)) ∧
+  (k ∉ R → q_aliases (remove r (false, p)) k = q_aliases r k ∧ q_canon (remove r (false, p)) k = q_canon r k) ∧
+  cv (remove r (false, p)) = cv r ∖ {[p]}.
+Proof. exact (remove_spec r p k). Qed.
+Print Assumptions C17_remove.
+
+(* a copy evolves independently of its source: an operation addressed to relation i changes no
+   other existing relation, and a fresh copy equals its source (value level; the sharing of the
+   Python set objects is covered by the correspondence check) *)
+Theorem C17_copy_independent (rs : list rel) (o : op) (j : nat) (r : rel) :
+  rs !! j = Some r →
+  match o with Add i _ _ | Remove i _ => i ≠ j | Copy _ => True end →
+  step rs o !! j = Some r.
+Proof. exact (step_frame rs o j r). Qed.
+Print Assumptions C17_copy_independent.
+
+Theorem C17_copy_equal (rs : list rel) (i : nat) (r : rel) :
+  rs !! i = Some r → step rs (Copy i) !! length rs = Some r.
+Proof. exact (copy_equal rs i r). Qed.
+Print Assumptions C17_copy_equal.
